@@ -320,3 +320,15 @@ func parseValues(txt string, m map[string]uint64) {
 		i = e
 	}
 }
+
+// RawCheck discharges a self-contained SMT-LIB problem in a fresh scope.
+func (s *Solver) RawCheck(smt string) string {
+	s.send("(push 1)")
+	s.depth++
+	for _, l := range strings.Split(strings.TrimSpace(smt), "\n") {
+		s.send(l)
+	}
+	r := s.Check()
+	s.Pop()
+	return r
+}
